@@ -26,8 +26,8 @@ def positions(S):
             ("capture", S, None), ("capture", S, "n"), ("group", S, False), ("group", S, True),
             ("mas", S), ("mae", S), ("mals", S), ("male", S)]
     for k in ("concat", "either"):
-        out += [(k, [S, x]), (k, [x, S]), (k, [x, S, y]), (k, [S, O("AnyLetter()")]), (k, [O("AnyLetter()"), S])]
-    out += [("enclose", S, [x]), ("enclose", x, [S]), ("enclose", x, [y, S])]
+        out += [(k, [S]), (k, [S, x]), (k, [x, S]), (k, [x, S, y]), (k, [S, O("AnyLetter()")]), (k, [O("AnyLetter()"), S])]
+    out += [("enclose", S, []), ("enclose", S, [x]), ("enclose", x, [S]), ("enclose", x, [y, S])]
     for k in dsl.LOOK:
         out += [(k, S, [x]), (k, x, [S]), (k, x, [y, S])]
     cap = ("capture", x, "n")
